@@ -93,17 +93,17 @@ Definition parse_indirect (fuel : nat) (total : N) (file : list N) (off : N) (le
   | c :: _ =>
       if negb (is_digit c) then inr 6 else
       match next_tok s with
-      | Some (TInt num, r1) =>
+      | Some (StInt num, r1) =>
           match next_tok r1 with
-          | Some (TInt gen, r2) =>
+          | Some (StInt gen, r2) =>
               match next_tok r2 with
-              | Some (TKw w, r3) =>
+              | Some (StKw w, r3) =>
                   if negb (beq w k_obj) then inr 6 else
                   match parse_obj fuel r3 with
                   | None => inr 7
                   | Some (v, r4) =>
                       match next_tok r4 with
-                      | Some (TKw w2, r5) =>
+                      | Some (StKw w2, r5) =>
                           if beq w2 k_endobj then
                             let r6 := match eol r5 with Some r => r | None => r5 end in
                             inl (Some {| so_num := Z.to_N num; so_gen := Z.to_N gen; so_where := XInUse off (Z.to_N gen);
@@ -130,7 +130,7 @@ Definition parse_indirect (fuel : nat) (total : N) (file : list N) (off : N) (le
                                         | None => inr 9
                                         | Some r7 =>
                                             match next_tok r7 with
-                                            | Some (TKw w3, r8) =>
+                                            | Some (StKw w3, r8) =>
                                                 if beq w3 k_endobj then
                                                   let r9 := match eol r8 with Some r => r | None => r8 end in
                                                   inl (Some {| so_num := Z.to_N num; so_gen := Z.to_N gen;
@@ -201,10 +201,10 @@ Fixpoint xref_subsections (fuel : nat) (s : list N) (acc : list (N * xentry)) : 
   | O => None
   | S f =>
       match next_tok s with
-      | Some (TKw w, r) => if beq w k_trailer then Some (acc, r) else None
-      | Some (TInt start, r1) =>
+      | Some (StKw w, r) => if beq w k_trailer then Some (acc, r) else None
+      | Some (StInt start, r1) =>
           match next_tok r1 with
-          | Some (TInt cnt, r2) =>
+          | Some (StInt cnt, r2) =>
               match eol (match r2 with 32 :: t => t | _ => r2 end) with
               | Some r3 =>
                   if (start <? 0)%Z || (cnt <? 0)%Z then None else
@@ -223,10 +223,10 @@ Fixpoint xref_subsections (fuel : nat) (s : list N) (acc : list (N * xentry)) : 
 (* startxref <n> %%EOF after a section; returns (value, rest after the EOF marker's EOL) *)
 Definition parse_tail (s : list N) : option (N * list N) :=
   match next_tok s with
-  | Some (TKw w, r1) =>
+  | Some (StKw w, r1) =>
       if negb (beq w k_startxref) then None else
       match next_tok r1 with
-      | Some (TInt v, r2) =>
+      | Some (StInt v, r2) =>
           match eol r2 with
           | Some r3 => match expect k_eof r3 with
                        | Some r4 => Some (Z.to_N v, match eol r4 with Some r5 => r5 | None => r4 end)
@@ -519,8 +519,8 @@ Fixpoint objstm_pairs (n : nat) (s : list N) (acc : list (N * N)) : option (list
   match n with
   | O => Some (rev' acc)
   | S n' => match next_tok s with
-            | Some (TInt a, r1) => match next_tok r1 with
-                                   | Some (TInt b, r2) =>
+            | Some (StInt a, r1) => match next_tok r1 with
+                                   | Some (StInt b, r2) =>
                                        if (a <? 0)%Z || (b <? 0)%Z then None
                                        else objstm_pairs n' r2 ((Z.to_N a, Z.to_N b) :: acc)
                                    | _ => None
